@@ -32,6 +32,71 @@ def _exec_program(prop, program, timeout=300):
             return None
 
 
+class ExecPool:
+    """Persistent executor processes (fresh interpreters, pinned environment) evaluating candidate programs."""
+
+    def __init__(self, prop, size=12, timeout=400):
+        from .runner import PY, child_env
+
+        self.prop, self.size, self.timeout = prop, size, timeout
+        self.cmd = [PY, "-m", "jxsim.worker", "--serve", prop]
+        self.env = child_env()
+        self.cwd = os.path.dirname(os.path.dirname(__file__))
+        self.procs = [None] * size
+
+    def _spawn(self, k):
+        p = subprocess.Popen(self.cmd, env=self.env, cwd=self.cwd, stdin=subprocess.PIPE, stdout=subprocess.PIPE, stderr=subprocess.DEVNULL, text=True)
+        line = p.stdout.readline()
+        if not line or not json.loads(line).get("ready"):
+            p.kill()
+            return None
+        self.procs[k] = p
+        return p
+
+    def _one(self, k, program):
+        import threading
+
+        p = self.procs[k] if self.procs[k] is not None and self.procs[k].poll() is None else self._spawn(k)
+        if p is None:
+            return None
+        result = [None]
+
+        def talk():
+            try:
+                p.stdin.write(json.dumps(program) + "\n")
+                p.stdin.flush()
+                line = p.stdout.readline()
+                result[0] = json.loads(line) if line else None
+            except Exception:  # noqa: BLE001
+                result[0] = None
+
+        t = threading.Thread(target=talk, daemon=True)
+        t.start()
+        t.join(self.timeout)
+        if t.is_alive() or result[0] is None:
+            try:
+                p.kill()
+            except Exception:  # noqa: BLE001
+                pass
+            self.procs[k] = None
+            return None
+        return result[0]
+
+    def map(self, programs):
+        with ThreadPoolExecutor(max_workers=self.size) as ex:
+            futs = [ex.submit(self._one, i % self.size, q) for i, q in enumerate(programs[: self.size])]
+            return [f.result() for f in futs]
+
+    def close(self):
+        for p in self.procs:
+            if p is not None:
+                try:
+                    p.stdin.close()
+                    p.kill()
+                except Exception:  # noqa: BLE001
+                    pass
+
+
 def fails_same(res, oracle):
     return bool(res) and not res.get("harness_error") and any(v["oracle"] == oracle for v in res.get("violations", []))
 
@@ -64,31 +129,34 @@ def shrink(sc, prop, program, oracle, budget_s=150, parallel=12, log=None):
     tried = 0
     improved = True
     seen = set()
-    while improved and time.time() - t0 < budget_s:
-        improved = False
-        cands = []
-        for q in _candidates(sc, best):
-            key = json.dumps(q, sort_keys=True)
-            if key in seen:
-                continue
-            seen.add(key)
-            cands.append(q)
-        for start in range(0, len(cands), parallel):
-            if time.time() - t0 > budget_s:
-                break
-            batch = cands[start:start + parallel]
-            with ThreadPoolExecutor(max_workers=parallel) as ex:
-                results = list(ex.map(lambda q: _exec_program(prop, q), batch))
-            tried += len(batch)
-            hit = None
-            for q, res in zip(batch, results):
-                if fails_same(res, oracle):
-                    hit = q
+    pool = ExecPool(prop, size=parallel)
+    try:
+        while improved and time.time() - t0 < budget_s:
+            improved = False
+            cands = []
+            for q in _candidates(sc, best):
+                key = json.dumps(q, sort_keys=True)
+                if key in seen:
+                    continue
+                seen.add(key)
+                cands.append(q)
+            for start in range(0, len(cands), parallel):
+                if time.time() - t0 > budget_s:
                     break
-            if hit is not None:
-                best = hit
-                improved = True
-                break
+                batch = cands[start:start + parallel]
+                results = pool.map(batch)
+                tried += len(batch)
+                hit = None
+                for q, res in zip(batch, results):
+                    if fails_same(res, oracle):
+                        hit = q
+                        break
+                if hit is not None:
+                    best = hit
+                    improved = True
+                    break
+    finally:
+        pool.close()
     if log is not None:
         log["shrink_candidates_tried"] = tried
         log["shrink_wall_s"] = round(time.time() - t0, 1)
